@@ -852,6 +852,20 @@ def check_flat(col):
                 continue
             for clause, msg in check_path_geometry(pts, line, 0.0, lambda x, y: float(m.get_depth_at(x, y))):
                 col.violation("flat:" + clause, f"line {list(line)}: {msg}", {"kind": "flat", "query": None, "line": list(line)})
+    # results handed out earlier stay what they were (each call returns its own object)
+    first = m.sample_path([0.0, 0.0, 1.0, 1.0])
+    keep = [[float(v) for v in p] for p in first]
+    try:
+        first[0][2] = 5.0                      # the caller edits what it was handed
+    except Exception:                          # noqa: BLE001 - immutable results are fine too
+        pass
+    second = m.sample_path([2.0, 0.5, 0.5, 2.0])
+    pts2 = as_points(second)
+    if pts2 is None or any(p[2] != 0.0 for p in pts2):
+        col.violation("flat:path-height-is-not-the-map-height", f"after the caller edited an earlier result, sample_path returned {second!r}", {"kind": "flat", "query": None, "line": [2.0, 0.5, 0.5, 2.0]})
+    again = [[float(v) for v in p] for p in first]
+    if [p[:2] for p in again] != [p[:2] for p in keep]:
+        col.violation("flat:earlier-result-changed", f"the path returned for [0,0,1,1] turned into {again} after a later call", {"kind": "flat", "query": None, "line": [0.0, 0.0, 1.0, 1.0]})
     col.count("flat_maps")
 
 
